@@ -39,10 +39,9 @@ import bundlegen as bg
 SIG_QUERY = 'C02 / dtn EID with query or fragment loses it through urlsplit'
 SIG_REASON = 'C02 / status report with a reason code outside StatusReport.ReasonCode (e.g. 11) cannot be decoded or built'
 SIG_ADMIN_FRAG = 'C02 / fragment of an administrative-record bundle (PAYLOAD_ADMIN|IS_FRAGMENT, partial record) cannot be decoded'
-# Genuine defects of the unchanged code, shown to the coordinator with their witnesses (harness/corpus/C02_*.json)
-# and awaiting a decision (fix: commit or known_findings.json).  While a signature is listed here and not yet in
-# known_findings.json the failure is printed as PENDING-FINDING and does not fail the run; once it is listed in
-# known_findings.json it goes through chk.fail() and prints KNOWN-FINDING.
+# Genuine defects of the unchanged code (witnesses in harness/corpus/C02_*.json).  They are listed as known in
+# known_findings.json, so they go through chk.fail() and print KNOWN-FINDING.  (A signature listed here but NOT in
+# known_findings.json would be printed as PENDING-FINDING without failing the run - used while a decision is open.)
 PENDING_FINDINGS = [SIG_QUERY, SIG_REASON, SIG_ADMIN_FRAG]
 
 IMPL_REASONS = list(range(0, 11)) + list(range(12, 17))      # only used to steer the generator
@@ -218,7 +217,7 @@ def gen_valid(chk):
         for (idx, bit) in enumerate(bg.PRIMARY_FLAGS):
             if bits >> idx & 1:
                 flags |= bit
-        cases.append(('flags', bg.gen_bundle(rng, flags=flags, n_ext=rng.choice([0, 0, 1]), payload_sizes=(0, 1, 5, 24), **safe)))
+        cases.append(('flags', bg.gen_bundle(rng, flags=flags, n_ext=rng.choice([0, 0, 0, 1]), payload_sizes=(0, 1, 5), eid_kinds=('none', 'ipn', 'dtn'), **safe)))
     # every combination of CRC types over primary / extension / payload
     for combo in itertools.product([0, 1, 2], repeat=3):
         for admin in (False, True):
@@ -239,10 +238,13 @@ def gen_valid(chk):
         spec['blocks'][0]['view'] = dict(kind='raw')
         spec['src'] = 'ipn:%d.%d' % (val, val)
         cases.append(('boundary', bg.fill_crc(spec)))
+    # the NUMBER of blocks at its own CBOR head boundaries (bundle array of 23/24 and 255/256 items, +-1)
+    for n_ext in ([21, 22, 23, 24, 25, 253, 254] if chk.quick() else bg.BLOCK_COUNT_BOUNDARY * 3 + [700]):
+        cases.append(('block-count', bg.gen_bundle(rng, n_ext=n_ext, tiny_ext=True, admin=False, payload_sizes=(0, 1, 5), **safe)))
     # big payloads (BTSD length heads of 3 and 5 octets); the model side is compared through digests (big_suite)
     for size in ([700, 4000] if chk.quick() else [4000, 65535, 65536, 65537]):
         cases.append(('big', bg.gen_bundle(rng, payload_sizes=(size,), admin=False, n_ext=1, **safe)))
-    for _ in range(200 if chk.quick() else 20000):
+    for _ in range(120 if chk.quick() else 20000):
         cases.append(('random', bg.gen_bundle(rng, **safe)))
     return cases
 
@@ -561,7 +563,7 @@ def run_streams(chk, cases, pending, shared):
         chk.count('stream', label.split(':')[0])
         chk.count('primary_items', 8 + (2 if spec['frag'] else 0) + (1 if spec['crc_type'] else 0))
         chk.count('crc_types', '%d/%s' % (spec['crc_type'], ','.join(str(blk['crc_type']) for blk in spec['blocks'][-2:])))
-        chk.count('blocks', len(spec['blocks']))
+        chk.count('blocks', len(spec['blocks']) if len(spec['blocks']) < 8 else '%d (bundle array of %d items)' % (len(spec['blocks']), 1 + len(spec['blocks'])))
         for eid in (spec['dest'], spec['src'], spec['report_to']):
             chk.count('eid_kind', 'dtn:none' if eid == 'dtn:none' else eid[:3] + (str(eid.count('.') + 1) if eid.startswith('ipn') else ''))
         for blk in spec['blocks']:
@@ -736,8 +738,16 @@ def agent_suite(chk):
                            tx_routes=[dict(pattern='.*', next_nodeid='dtn://hop/', cl_type='fake', mtu=None)])
     count = 0
     sent = 0
-    for _ in range(40 if chk.quick() else 400):
-        spec = bg.gen_bundle(rng, eid_kinds=('dtn', 'ipn'), unknown_flag_bits=False, admin=False, reasons=IMPL_REASONS)
+    plan = [None] * (30 if chk.quick() else 400)
+    # received with 19..24 (and 251..255) extension blocks: the blocks the agent adds when forwarding (previous
+    # node, bundle age, ...) carry the transmitted item count across the 23/24 (255/256) boundary
+    plan += [19, 20, 21, 22, 23, 24] + ([252, 253] if chk.quick() else [250, 251, 252, 253, 254, 255])
+    for n_ext in plan:
+        if n_ext is None:
+            spec = bg.gen_bundle(rng, eid_kinds=('dtn', 'ipn'), unknown_flag_bits=False, admin=False, reasons=IMPL_REASONS)
+        else:
+            spec = bg.gen_bundle(rng, eid_kinds=('dtn', 'ipn'), unknown_flag_bits=False, admin=False, reasons=IMPL_REASONS,
+                                 n_ext=n_ext, tiny_ext=True, payload_sizes=(1, 5))
         spec['flags'] &= ~bg.FLAG_IS_FRAGMENT
         spec['frag'] = None
         spec['blocks'] = [blk for blk in spec['blocks'] if blk['type'] not in (bg.BLOCK_BIB, bg.BLOCK_BCB)]
@@ -759,10 +769,14 @@ def agent_suite(chk):
             probs = bg.shape_problems(raw)
             try:
                 bg.decode(raw)
-            except ValueError as err:
+            except Exception as err:
                 probs.append('independent strict decoder: %s' % err)
             chk.case(('agent', ent['raw_hex']), nontrivial=True)
             chk.count('stream', 'agent-tx')
+            try:
+                chk.count('agent_tx_items', '%d->%d' % (2 + len(spec['blocks']) - 1, len(cbor2.loads(raw))) if n_ext is not None else 'small')
+            except Exception:
+                chk.count('agent_tx_items', 'undecodable')
             if probs:
                 report(chk, {}, 'C02 / octets handed to the convergence layer are not RFC 9171 well-formed',
                        '; '.join(probs) + ' : ' + ent['raw_hex'][:200], dict(kind='agent', spec=spec))
